@@ -49,7 +49,7 @@ def particles(rng, n, dup_share=0.5):
 
 # ------------------------------------------------------------------ cores
 def gen_sites(rng, tier):
-    for p in particles(rng, n_cases(tier, 400, 20000)):
+    for p in particles(rng, n_cases(tier, 400, 6000)):
         yield {"particle": p}
 
 
@@ -68,7 +68,7 @@ def canon_sites(o):
 
 def stage_gen(stage):
     def gen(rng, tier):
-        for p in particles(rng, n_cases(tier, 300, 15000), dup_share=0.7):
+        for p in particles(rng, n_cases(tier, 300, 4000), dup_share=0.7):
             try:
                 sites = G.real_xsd_sites(G.particle_xsd(p))
             except Exception:  # noqa: BLE001
@@ -99,7 +99,7 @@ def stage_impl(stage):
 
 
 def gen_occurs(rng, tier):
-    for p in particles(rng, n_cases(tier, 300, 15000), dup_share=0.7):
+    for p in particles(rng, n_cases(tier, 300, 4000), dup_share=0.7):
         try:
             yield {"sites": G.real_xsd_sites(G.particle_xsd(p))}
         except Exception:  # noqa: BLE001
@@ -122,7 +122,7 @@ def field_shapes(cls):
 
 
 def gen_fields(rng, tier):
-    for p in particles(rng, n_cases(tier, 80, 4000), dup_share=0.5):
+    for p in particles(rng, n_cases(tier, 80, 700), dup_share=0.5):
         if valid_schema(p):
             yield {"particle": p}
 
@@ -172,7 +172,7 @@ def gen_choice_clashes(rng, tier):
     """repeating choices of single elements whose python types overlap (the case compound fields
     must disambiguate): plain/derived types and unions sharing a member type"""
     clash = ["string", "token", "int", "long", "date", "u_int_string", "u_date_int", "boolean", "decimal"]
-    for _ in range(n_cases(tier, 20, 1500)):
+    for _ in range(n_cases(tier, 20, 400)):
         k = rng.randint(2, 4)
         names = rng.sample(["a", "b", "c", "d", "e"], k)
         p = {"choice": [rng.choice([0, 1]), MAXSIZE, [{"elem": [n, 1, 1]} for n in names]]}
@@ -188,7 +188,7 @@ def gen_e2e(rng, tier):
     n = 0
     for a in gen_docs(rng, tier):
         n += 1
-        if n > n_cases(tier, 25, 1500):
+        if n > n_cases(tier, 25, 500):
             break
         yield a
 
@@ -220,7 +220,7 @@ def gschemas(rng, n):
 
 
 def gen_gsites(rng, tier):
-    for sch in gschemas(rng, n_cases(tier, 300, 12000)):
+    for sch in gschemas(rng, n_cases(tier, 300, 3000)):
         yield sch
 
 
@@ -241,7 +241,7 @@ def canon_gsites(o):
 
 def gen_gcalc(rng, tier):
     """the classes of a schema after the real UNGROUP step, as the input of one CalculateAttributePaths handler"""
-    for sch in gschemas(rng, n_cases(tier, 300, 12000)):
+    for sch in gschemas(rng, n_cases(tier, 300, 3000)):
         try:
             yield {"classes": G.renumber_classes(G.real_schema_classes(G.gschema_xsd(sch)))}
         except Exception:  # noqa: BLE001
@@ -270,7 +270,7 @@ def gen_gfields(rng, tier):
     for sch in HAND_GROUPS:
         if gschema_valid(sch):
             yield sch
-    while n < n_cases(tier, 60, 2500):
+    while n < n_cases(tier, 60, 600):
         sch = G.gen_gschema(rng, valid=True, dup=rng.random() < 0.15)
         n += 1
         if gschema_valid(sch):
@@ -307,7 +307,7 @@ def gen_attr_decls(rng, tier):
                 exhaustive.append({"kind": "element", "min": mn, "max": mx, "default": dflt, "fixed": fx, "type": tp})
     for i in range(0, len(exhaustive), 12):
         yield {"decls": exhaustive[i:i + 12]}
-    for _ in range(n_cases(tier, 150, 6000)):
+    for _ in range(n_cases(tier, 150, 2000)):
         yield {"decls": [G.gen_decl(rng) for _ in range(rng.randint(1, 8))]}
 
 
@@ -344,7 +344,9 @@ def impl_attr_sanitize(a):
 
 
 def gen_attr_fields(rng, tier):
-    for a in gen_attr_decls(rng, "quick" if tier == "quick" else tier):
+    for i, a in enumerate(gen_attr_decls(rng, tier)):
+        if i >= n_cases(tier, 10**6, 600):
+            break
         yield a
 
 
@@ -381,7 +383,7 @@ def impl_override(a):
 
 def gen_restrict(rng, tier):
     """base: 1..5 elements; own: a subsequence of the base names re-declared with any bounds, sometimes a new name"""
-    for _ in range(n_cases(tier, 250, 8000)):
+    for _ in range(n_cases(tier, 250, 3000)):
         names = rng.sample(list("abcdefg"), rng.randint(1, 5))
         base = [G.gen_oattr(rng, n) for n in names]
         own = [G.gen_oattr(rng, n) for n in names if rng.random() < 0.6]
@@ -398,7 +400,9 @@ def impl_restrict_attrs(a):
 
 
 def gen_restrict_fields(rng, tier):
-    for a in gen_restrict(rng, "quick" if tier == "quick" else tier):
+    for i, a in enumerate(gen_restrict(rng, tier)):
+        if i >= n_cases(tier, 10**6, 700):
+            break
         # the mapper reads `default`+`fixed` from one declaration: keep what a schema can say; no maxOccurs=0 in the base
         ok_ = all(o["max"] > 0 for o in a["base"]) and all(not (o["max"] == 0 and o["default"] is not None) for o in a["own"])
         if ok_ and a["own"]:
@@ -435,7 +439,7 @@ def canon_restrict_fields(o):
 
 
 def gen_ext(rng, tier):
-    for _ in range(n_cases(tier, 80, 4000)):
+    for _ in range(n_cases(tier, 80, 500)):
         pa = G.gen_particle(rng, distinct=["a", "b", "c", "d"])
         pb = G.gen_particle(rng, distinct=["e", "f", "g", "h"])
         if pa is None or pb is None or "elem" in pa or "elem" in pb:
@@ -479,7 +483,7 @@ def gen_subst_case(rng):
 
 
 def gen_subst_sites(rng, tier):
-    for _ in range(n_cases(tier, 250, 8000)):
+    for _ in range(n_cases(tier, 250, 2500)):
         a = gen_subst_case(rng)
         if a is None:
             continue
@@ -504,7 +508,7 @@ def canon_by_name(o):
 
 
 def gen_subst_fields(rng, tier):
-    for _ in range(n_cases(tier, 70, 3000)):
+    for _ in range(n_cases(tier, 70, 500)):
         a = gen_subst_case(rng)
         if a is not None:
             yield a
@@ -689,7 +693,7 @@ OUTPUT_ONLY = [
 
 
 def gen_docs(rng, tier):
-    for p in particles(rng, n_cases(tier, 60, 3000), dup_share=0.3):
+    for p in particles(rng, n_cases(tier, 60, 100000), dup_share=0.3):
         typed = rng.random() < 0.6
         types = G.assign_types(rng, p) if typed else None
         try:
@@ -750,7 +754,7 @@ def gen_groups(rng, tier):
     hand = {"seq": [1, 1, [{"elem": ["a", 1, 1]}, {"elem": ["b", 0, 1]}]]}
     yield {"group": hand, "refs": [(1, 1), (0, G.MAXSIZE)], "words": [[["a", "b"], ["a"]], [[], ["a", "a", "b", "a"], ["a", "b"]]], "types": None}
     yield {"group": hand, "refs": [(0, G.MAXSIZE), (1, 1)], "words": [[[], ["a", "a", "b", "a"]], [["a", "b"], ["a"]]], "types": None}
-    for _ in range(n_cases(tier, 40, 1500)):
+    for _ in range(n_cases(tier, 40, 100000)):
         q = G.gen_particle(rng, distinct=["a", "b", "c", "d", "e", "f"])
         if q is None or "elem" in q:
             continue
